@@ -1,7 +1,7 @@
 (* C08 property theorems.  Statements only, each closed by exact <lemma>, Print Assumptions beneath.
    Models: C08/Model.v; abstract models: C08/Spec.v; regenerated comparisons and tables: C08/Gen.v. *)
 From Coq Require Import ZArith.
-From Wz Require Import lib.Bytes C08.LibStr C08.Gen C08.Model C08.Spec C08.Proofs C08.ProofsMD C08.ProofsMM.
+From Wz Require Import lib.Bytes C08.LibStr C08.Gen C08.Model C08.Spec C08.Proofs C08.ProofsMD C08.ProofsMM C08.ProofsEq C08.ProofsCopy.
 Open Scope N_scope.
 
 (* ---------------------------------------------------------------- HeaderSet: representation invariant *)
@@ -257,3 +257,178 @@ Theorem C08_slice_clamp : forall len i dflt,
   ((i < 0)%Z -> clamp len (Some i) dflt = Z.to_nat (Z.max 0 (i + Z.of_nat len))).
 Proof. exact clamp_spec. Qed.
 Print Assumptions C08_slice_clamp.
+
+(* ---------------------------------------------------------------- equality, hashing, copies, pickling *)
+(* MultiDict / ImmutableMultiDict ==: exactly equality of the rows key by key (key order irrelevant) *)
+Theorem C08_multidict_eq : forall d1 d2, md_wf d1 -> md_wf d2 ->
+  (md_eqb d1 d2 = true <-> forall k, d_get k d1 = d_get k d2).
+Proof. exact md_eq_spec. Qed.
+Print Assumptions C08_multidict_eq.
+
+Theorem C08_multidict_eq_equivalence :
+  (forall d, md_wf d -> md_eqb d d = true) /\
+  (forall d1 d2, md_wf d1 -> md_wf d2 -> md_eqb d1 d2 = md_eqb d2 d1) /\
+  (forall d1 d2 d3, md_wf d1 -> md_wf d2 -> md_wf d3 -> md_eqb d1 d2 = true -> md_eqb d2 d3 = true -> md_eqb d1 d3 = true).
+Proof. exact md_eq_equivalence. Qed.
+Print Assumptions C08_multidict_eq_equivalence.
+
+(* equal immutable values hash equal: hash(frozenset(items(multi=True))) is, by the contract of frozenset hashing, a
+   function of the SET of pairs, and equal values have the same set of pairs *)
+Theorem C08_immutable_eq_hash : forall (hash_fs : list (str * str) -> Z),
+  (forall l1 l2, (forall p, In p l1 <-> In p l2) -> hash_fs l1 = hash_fs l2) ->
+  forall d1 d2, md_wf d1 -> md_wf d2 -> md_eqb d1 d2 = true -> imd_hash hash_fs d1 = imd_hash hash_fs d2.
+Proof. exact imd_eq_hash. Qed.
+Print Assumptions C08_immutable_eq_hash.
+
+(* copy() keeps the rows; deepcopy() (through to_dict and the constructor) and the immutable variant's pickle
+   (__reduce_ex__ through its pairs) keep exactly the non-empty rows; __setstate__(__getstate__()) is the identity *)
+Theorem C08_copy_deepcopy_pickle : forall d, md_wf d ->
+  md_copy d = d /\ md_deepcopy d = live d /\ imd_reduce d = live d /\ md_setstate [] (md_getstate d) = d.
+Proof. exact md_rebuild. Qed.
+Print Assumptions C08_copy_deepcopy_pickle.
+
+(* ... so on a state without empty rows copy, deep copy and pickle round trip are the identity on the value *)
+Theorem C08_copy_deepcopy_pickle_identity : forall d, md_good d -> md_copy d = d /\ md_deepcopy d = d /\ imd_reduce d = d.
+Proof. exact md_rebuild_good. Qed.
+Print Assumptions C08_copy_deepcopy_pickle_identity.
+
+Theorem C08_copy_deepcopy_pickle_refuted : exists d, md_wf d /\ md_copy d = d /\ md_deepcopy d <> d /\ imd_reduce d <> d.
+Proof. exact md_rebuild_refuted. Qed.
+Print Assumptions C08_copy_deepcopy_pickle_refuted.
+
+(* Headers ==: equality of the sets of (folded key, value) pairs; an equivalence; equal Headers answer getlist with
+   the same values; copy() of clean Headers is the same pair list *)
+Theorem C08_headers_eq : forall h1 h2,
+  hd_eqb h1 h2 = true <-> (forall p, In p (hd_lowered h1) <-> In p (hd_lowered h2)).
+Proof. exact hd_eq_spec. Qed.
+Print Assumptions C08_headers_eq.
+
+Theorem C08_headers_eq_equivalence :
+  (forall h, hd_eqb h h = true) /\ (forall h1 h2, hd_eqb h1 h2 = hd_eqb h2 h1) /\
+  (forall h1 h2 h3, hd_eqb h1 h2 = true -> hd_eqb h2 h3 = true -> hd_eqb h1 h3 = true).
+Proof. exact hd_eq_equivalence. Qed.
+Print Assumptions C08_headers_eq_equivalence.
+
+Theorem C08_headers_eq_reads : forall h1 h2 k v,
+  hd_eqb h1 h2 = true -> (In v (hd_getlist h1 k) <-> In v (hd_getlist h2 k)).
+Proof. exact hd_eq_reads. Qed.
+Print Assumptions C08_headers_eq_reads.
+
+Theorem C08_headers_copy : forall h, clean h -> hd_copy h = (h, None).
+Proof. exact hd_copy_clean. Qed.
+Print Assumptions C08_headers_copy.
+
+(* HeaderSet == (collections.abc.Set.__eq__) on states satisfying the invariant: same folded item sets; an
+   equivalence; equal sets contain the same items up to case *)
+Theorem C08_headerset_eq : forall s1 s2, RI s1 -> RI s2 ->
+  (hs_eqb s1 s2 = true <-> forall x, In x (hs_set s1) <-> In x (hs_set s2)).
+Proof. exact hs_eq_spec. Qed.
+Print Assumptions C08_headerset_eq.
+
+Theorem C08_headerset_eq_equivalence :
+  (forall s, RI s -> hs_eqb s s = true) /\
+  (forall s1 s2, RI s1 -> RI s2 -> hs_eqb s1 s2 = true -> hs_eqb s2 s1 = true) /\
+  (forall s1 s2 s3, RI s1 -> RI s2 -> RI s3 -> hs_eqb s1 s2 = true -> hs_eqb s2 s3 = true -> hs_eqb s1 s3 = true).
+Proof. exact hs_eq_equivalence. Qed.
+Print Assumptions C08_headerset_eq_equivalence.
+
+Theorem C08_headerset_eq_contains : forall s1 s2 h,
+  RI s1 -> RI s2 -> hs_eqb s1 s2 = true -> ci_mem h (abs s1) = ci_mem h (abs s2).
+Proof. exact hs_eq_contains. Qed.
+Print Assumptions C08_headerset_eq_contains.
+
+(* CombinedMultiDict ==: true between any two views (known finding combined-eq-ignores-content) *)
+Theorem C08_combined_eq_refuted : exists c1 c2 k, cmd_eqb c1 c2 = true /\ cmd_getlist c1 k <> cmd_getlist c2 k.
+Proof. exact cmd_eq_refuted. Qed.
+Print Assumptions C08_combined_eq_refuted.
+
+(* ---------------------------------------------------------------- states that hold an empty row (known finding) *)
+(* the reads that agree with the abstract multimap in EVERY well-formed state: items(multi=True), getlist, item
+   lookup, and the keys of the non-empty rows *)
+Theorem C08_emptyrow_reads_partial : forall d, md_wf d ->
+  md_items_multi d = md_abs d /\
+  (forall k, md_getlist d k = mm_getlist (md_abs d) k) /\
+  (forall k, md_getitem d k = match mm_getlist (md_abs d) k with v :: _ => Ok (OStr v) | [] => Err KeyError end) /\
+  map fst (live d) = mm_keys (md_abs d).
+Proof. exact emptyrow_reads_agree. Qed.
+Print Assumptions C08_emptyrow_reads_partial.
+
+(* items() / values() / to_dict(): IndexError exactly when an empty row is stored, else the first value of every row *)
+Theorem C08_emptyrow_items : forall d, md_wf d ->
+  (md_items d = Err IndexError <-> exists k, In (k, []) d) /\
+  ((forall k, ~ In (k, []) d) -> md_items d = Ok (map (fun kv => (fst kv, hd [] (snd kv))) d)).
+Proof. exact emptyrow_items. Qed.
+Print Assumptions C08_emptyrow_items.
+
+(* keys / len / in count the phantom key *)
+Theorem C08_emptyrow_keys_refuted :
+  exists d k, md_wf d /\ d_mem k d = true /\ smem k (mm_keys (md_abs d)) = false /\ length d <> length (mm_keys (md_abs d)).
+Proof. exact emptyrow_keys_refuted. Qed.
+Print Assumptions C08_emptyrow_keys_refuted.
+
+(* add to a phantom key fills the phantom's position: the pair ORDER differs from the abstract multimap's *)
+Theorem C08_emptyrow_refine_refuted :
+  exists d k v, md_wf d /\ md_abs (fst (md_step d (MAdd k v))) <> fst (mm_step (md_abs d) (MAdd k v)).
+Proof. exact emptyrow_add_position_refuted. Qed.
+Print Assumptions C08_emptyrow_refine_refuted.
+
+(* pop on an empty row removes the key and answers KeyError / the default *)
+Theorem C08_emptyrow_pop : forall d k dflt, d_get k d = Some [] ->
+  md_step d (MPop k dflt) = (d_del k d, match dflt with Some x => Ok (OStr x) | None => Err KeyError end).
+Proof. exact emptyrow_pop. Qed.
+Print Assumptions C08_emptyrow_pop.
+
+(* ------------------------------------------------------------------ copies are independent of the original *)
+(* MultiDict over a heap of rows (C08/ProofsCopy.v): the dict maps a key to a reference to its row; the mutators are
+   compositions of in-place append, bind-to-a-new-row, unbind and clear.  These primitives refine the functional
+   operations of the model on every well-formed state ... *)
+Theorem C08_heap_refines : forall hp d p,
+  wf hp d -> view (fst (prim_step (hp, d) p)) (snd (prim_step (hp, d) p)) = prim_fun (view hp d) p.
+Proof. exact prim_refines. Qed.
+Print Assumptions C08_heap_refines.
+
+(* ... frame: a primitive run on one dict leaves every dict that shares no row with it unchanged, and keeps them apart *)
+Theorem C08_copy_frame : forall hp d1 d2 p,
+  wf hp d1 -> wf hp d2 -> sep d1 d2 ->
+  let st := prim_step (hp, d2) p in
+  view (fst st) d1 = view hp d1 /\ wf (fst st) d1 /\ wf (fst st) (snd st) /\ sep d1 (snd st).
+Proof. exact prim_frame. Qed.
+Print Assumptions C08_copy_frame.
+
+(* ... copy() (a new row per key: the pinned vs[:]) is the model's md_copy, and every operation sequence on the copy
+   leaves the original as it was while the copy follows the functional model - and the other way round *)
+Theorem C08_copy_independent : forall hp d ps,
+  wf hp d ->
+  let c := h_copy hp d in
+  view (fst c) (snd c) = md_copy (view hp d) /\
+  view (fst (run c ps)) d = view hp d /\
+  view (fst (run c ps)) (snd (run c ps)) = fold_left prim_fun ps (view hp d) /\
+  view (fst (run (fst c, d) ps)) (snd c) = view hp d /\
+  view (fst (run (fst c, d) ps)) (snd (run (fst c, d) ps)) = fold_left prim_fun ps (view hp d).
+Proof. exact copy_independent. Qed.
+Print Assumptions C08_copy_independent.
+
+(* the statement is about the row copy: a copy sharing the rows (dict.copy) shows an add on the copy through the original *)
+Theorem C08_copy_shared_rows_refuted :
+  exists hp d p, wf hp d /\ let c := h_shallow hp d in view (fst (prim_step c p)) d <> view hp d.
+Proof. exact shallow_copy_refuted. Qed.
+Print Assumptions C08_copy_shared_rows_refuted.
+
+(* Headers: one cell per object holding the list of immutable pairs; copy() allocates a new cell *)
+Theorem C08_headers_copy_independent : forall hp r os,
+  (r < length hp)%nat ->
+  let c := hd_copy_h hp r in
+  nth (snd c) (fst c) [] = fst (hd_copy (nth r hp [])) /\
+  nth r (fold_left (fun h o => hd_step_h h (snd c) o) os (fst c)) [] = nth r hp [] /\
+  nth (snd c) (fold_left (fun h o => hd_step_h h r o) os (fst c)) [] = fst (hd_copy (nth r hp [])).
+Proof. exact headers_copy_independent. Qed.
+Print Assumptions C08_headers_copy_independent.
+
+Example C08_copy_independent_example :
+  let hp := [[[49]]; [[50]; [51]]] in let d := [([97], 0%nat); ([98], 1%nat)] in
+  wf hp d /\
+  view (fst (run (h_copy hp d) [PAppend [97] [57]; PUnbind [98]])) d = [([97], [[49]]); ([98], [[50]; [51]])] /\
+  view (fst (run (h_copy hp d) [PAppend [97] [57]; PUnbind [98]])) (snd (run (h_copy hp d) [PAppend [97] [57]; PUnbind [98]]))
+    = [([97], [[49]; [57]])].
+Proof. split; [split; [repeat constructor|repeat constructor; cbn; intuition discriminate]|vm_compute; split; reflexivity]. Qed.
+Print Assumptions C08_copy_independent_example.
